@@ -106,27 +106,53 @@ def gate(model, rep):
             continue
         if st.name in DATA_GATED or st.name in ('unparse', '_find_shebang'):
             continue
-        opt = OPTION_OF_STAGE.get(st.name)
-        if opt is None:
-            if rewrites:
-                rep.violation('C05.GATE', where, src(st.call)[:70], 'tree-rewriting stage %s is not switched by any documented option' % st.name, key='C05.GATE|' + st.name)
+        if st.name not in OPTION_OF_STAGE and rewrites:
+            rep.violation('C05.GATE', where, src(st.call)[:70], 'tree-rewriting stage %s is not switched by any documented option' % st.name, key='C05.GATE|' + st.name)
+    # which stages run for which options: minify() itself is evaluated (pmstatic.apirun), every stage replaced by a recorder
+    from .. import apirun
+    options = [p for p in mi.params if p not in ('source', 'filename', 'preserve_locals', 'preserve_globals')]
+    all_off = {p: False for p in options}
+    neutral = ANNOTATION_ONLY | DATA_GATED | {'unparse', '_find_shebang'}
+    known = set(OPTION_OF_STAGE)
+
+    def switched(kw):
+        r = apirun.run(model, kwargs=kw)
+        if r.outcome[0] != 'return':
+            raise AnalysisError('UNDECIDED: minify(%s) -> %s' % (kw, r.outcome))
+        return r, [n for n in r.names() if n not in neutral]
+    r0, base_off = switched(all_off)
+    rep.check(not base_off, 'C05.GATE', mi.loc(), 'every option off', 'no rewriting stage runs (%s)' % r0.names(), 'with every option off the stages %s still run' % base_off, key='C05.GATE|all-off')
+    stage_of = {v: k for k, v in OPTION_OF_STAGE.items()}
+    for opt in options:
+        want = [stage_of[opt]] if opt in stage_of else []
+        _r, got = switched(dict(all_off, **{opt: True}))
+        rep.check(got == want, 'C05.GATE', mi.loc(), 'only %s on -> %s' % (opt, got), 'exactly its own stage' if want else 'no rewriting stage of its own (it parameterises the renamer / the printer)',
+                  'with only %s on the rewriting stages that run are %s, expected %s' % (opt, got, want), key='C05.GATE|on|' + opt)
+    defaults = {}
+    _r, base_on = switched({})
+    for opt in options:
+        d = mi.defaults().get(opt)
+        cur = d.value if isinstance(d, ast.Constant) else True
+        if not isinstance(cur, bool):
             continue
-        facts = st.facts
-        if facts is None:
-            rep.violation('C05.GATE', where, src(st.call)[:70], 'stage is unreachable: option %s can never take effect' % opt, key='C05.GATE|' + st.name)
-            continue
-        truthy = (opt, True) in facts or ('%s is True' % opt, True) in facts
-        if opt == 'remove_annotations':
-            # gated through the normalised options object derived from the parameter
-            truthy = any(p and k.endswith('_options') for (k, p) in facts if not k.startswith('<')) and \
-                all(isinstance(d, ast.AST) and 'remove_annotations' in src(d) for d in P.defs.get('remove_annotations_options', [])) and bool(P.defs.get('remove_annotations_options'))
-        # the option parameter must not have been re-assigned to something wider before the test
-        redefs = [d for d in P.defs.get(opt, []) if d != '<param>' and not (isinstance(d, ast.Constant) and d.value is False)]
-        other = sorted(k for (k, p) in facts if not k.startswith('<') and p and k in mi.params and k != opt)
-        rep.check(truthy and not redefs, 'C05.GATE', where, src(st.call)[:70], 'only under option %s' % opt,
-                  'stage %s is not gated by its own option %s (facts: %s)%s' % (st.name, opt, [k for (k, p) in facts if not k.startswith('<')][:5], '; gated by %s instead' % other if other else ''),
-                  key='C05.GATE|' + st.name)
-    rep.floor('C05.GATE', 12)
+        _r, got = switched({opt: not cur})
+        st_name = stage_of.get(opt)
+        want = [n for n in base_on if n != st_name] if cur else (sorted(base_on + [st_name], key=lambda n: n) if st_name else base_on)
+        ok = sorted(got) == sorted(want)
+        rep.check(ok, 'C05.GATE', mi.loc(), 'defaults with %s=%s -> %d stages' % (opt, not cur, len(got)), 'differs from the default run by exactly its own stage',
+                  'flipping %s to %s changes the set of rewriting stages from %s to %s' % (opt, not cur, sorted(base_on), sorted(got)), key='C05.GATE|flip|' + opt)
+    # the annotation options object: every field off -> the stage does not run; any field on -> it runs
+    from ..absint import Obj as _Obj
+    for bits in ((False, False, False, False), (True, False, False, False), (False, False, False, True)):
+        o = _Obj('RemoveAnnotationsOptions', remove_variable_annotations=bits[0], remove_return_annotations=bits[1], remove_argument_annotations=bits[2], remove_class_attribute_annotations=bits[3])
+        o.qual = 'python_minifier.transforms.remove_annotations_options.RemoveAnnotationsOptions'
+        _r, got = switched(dict(all_off, remove_annotations=o))
+        want = ['RemoveAnnotations'] if any(bits) else []
+        rep.check(got == want, 'C05.GATE', mi.loc(), 'remove_annotations=Options%s -> %s' % (bits, got), 'stage runs iff some field is on',
+                  'with an options object %s the rewriting stages are %s, expected %s' % (bits, got, want), key='C05.GATE|options|%s' % (bits,))
+    unknown = [n for n in base_on if n not in known]
+    rep.check(not unknown, 'C05.GATE', mi.loc(), 'stages of the default run', 'all belong to a documented option', 'stages %s run by default but belong to no documented option' % unknown, key='C05.GATE|unknown')
+    rep.floor('C05.GATE', 30)
     rep.floor('C05.EFF', 6)
 
 
